@@ -540,6 +540,31 @@ def check_noise_models_multi(cfg, rng, viol, stats, sig_base):
                      "signature": dict(sig_base, oracle="I1_noise_model_physical", noise=method, type=kind, system=f"{num}{mode}", exc=type(e).__name__)})
         return
     arr = workload.qobj_arrays(got)
+    # the first parallel level ships generation settings to worker processes by pickling: a setting that went through a
+    # pickle round trip must generate the same object (named bases with explicit ids included)
+    try:
+        import cloudpickle
+
+        oc["H1_setting_pickle_roundtrip"] = oc.get("H1_setting_pickle_roundtrip", 0) + 1
+        kw = {"qoperation_base": (kind, name), "ids": list(reversed(range(num)))} if (num > 1 and kind == "gate" and name in ("cx", "zx90")) else {"qoperation_base": (kind, name)}
+        if method == "depolarized":
+            s1 = DepolarizedQOperationGenerationSetting(c_sys=c_sys, error_rate=para["error_rate"], **kw)
+            a1 = workload.qobj_arrays(s1.generate())
+            a2 = workload.qobj_arrays(pickle.loads(cloudpickle.dumps(s1)).generate())
+        else:
+            s1 = RandomEffectiveLindbladianGenerationSetting(c_sys=c_sys, lindbladian_base="identity", strength_h_part=para["strength_h_part"], strength_k_part=para["strength_k_part"], **kw)
+            g = lambda: np.random.Generator(np.random.MT19937(cfg["seed_qoperation"]))
+            o1 = s1.generate(g())
+            o2 = pickle.loads(cloudpickle.dumps(s1)).generate(g())
+            a1 = workload.qobj_arrays(o1[0] if isinstance(o1, tuple) else o1)
+            a2 = workload.qobj_arrays(o2[0] if isinstance(o2, tuple) else o2)
+        d = first_diff(a1, a2, "generated")
+        if d:
+            viol.append({"oracle": "H1_generated_objects", "what": f"a {method} generation setting for {kind} {name} on {num} {mode}(s) (ids {kw.get('ids')}) generates a different object after a pickle round trip (as a worker process receives it): {d[0]} max abs diff {d[2]}",
+                         "detail": {"noise": cfg["noise"][:2], "ids": kw.get("ids")}, "signature": dict(sig_base, oracle="H1_generated_objects", via="pickle_roundtrip", system=f"{num}{mode}")})
+            return
+    except ImportError:
+        pass
     oc["I1_physical_multi"] = oc.get("I1_physical_multi", 0) + 1
     eq, ineq = physicality_defect(arr, basis, dim)
     if eq > 1e-8 or ineq > 1e-8:
